@@ -266,7 +266,9 @@ SPEC = PropSpec(
           "in-memory or on-disk operands in either position, counting Bloom, count-min / mean / mean-min); two seeded "
           "streams of add (and legitimate remove) go to a and b, c receives both; at seeded points and at the end "
           "a.union(b) / b.union(a) / join (on a copy) must have exactly c's array (and element total for join), report "
-          "every key an operand reports and never estimate below the sum of the true counts.  non-trivial = both streams "
+          "every key an operand reports and never estimate below the sum of the true counts; afterwards the result is mutated "
+          "and both operands must equal their snapshots.  Operands may carry function objects of their own for the shared "
+          "strategy, be user subclasses, and follow a prior-life pair at the same addresses.  non-trivial = both streams "
           "non-empty at a combine; distinct = event-log digests"),
     state_measure="distinct (kind, order, keys in a, keys in b)",
     assumptions=["CPython 3.12", "unsaturated states only (amounts <= 11 per add)"],
